@@ -770,6 +770,9 @@ class Evaluator:
         if base[0] == "global" and base[2] == "class":
             s = self.index._descend(_sym_from_term(self.index, base), [n.attr], 0)
             if s is not None and s.kind in ("func",):
+                # a classmethod's result depends on the class it is called on: keep the receiver
+                if isinstance(s.node, ast.FunctionDef) and any(ast.unparse(d) == "classmethod" for d in s.node.decorator_list):
+                    return ("attr", base, n.attr)
                 return sym_term(s)
             return ("attr", base, n.attr)
         return ("attr", base, n.attr)
